@@ -837,10 +837,13 @@ def c15_cases(tier, seed):
     base.append(Case(gens.ent_doc([("e", "<a/><a/>"), ("f", "&e;&e;&e;"), ("g", "&f;&f;&f;")], "<r>&g;&g;</r>"), "", True, meta={"gen": "ent-multiply-nested"}))
     # entity values whose markup characters outnumber the nodes they yield ('<' inside CDATA / comments / PIs, CDATA merging into
     # preceding text): a limit equal to the real node count must still be accepted
-    for val in ("<![CDATA[y]]>", "<?pi <<<< ?>", "<!-- <<<< -->", "<![CDATA[<<<<]]>", "<a b='1'/><![CDATA[<<]]>", "t<![CDATA[<]]><!--<-->"):
+    for val in ("<![CDATA[y]]>", "<?pi <<<< ?>", "<!-- <<<< -->", "<![CDATA[<<<<]]>", "<a b='1'/><![CDATA[<<]]>", "t<![CDATA[<]]><!--<-->",
+                "<!-- <b/><c/><d>old</d> -->", "<![CDATA[<x><y/></x>]]>", "<?p <q><r/> ?>"):
         for body in ("<r>x&e;</r>", "<r>&e;</r>", "<r><a/>x&e;&e;</r>", "<r><a>&e;</a>&e;</r>"):
             base.append(Case(gens.ent_doc([("e", val)], body), "", True, meta={"gen": "ent-lt-overcount"}))
-    for s in ("<a>x<![CDATA[y]]></a>", "<a><b/>x<![CDATA[y]]>z</a>", "<a>x<!--c-->y</a>"):
+    for s in ("<a>x<![CDATA[y]]></a>", "<a><b/>x<![CDATA[y]]>z</a>", "<a>x<!--c-->y</a>",
+              # markup-looking text inside comments / CDATA / PIs of a DOCTYPE-free document: not nodes
+              "<a><!-- <b/><c/><d>old</d> --></a>", "<a><![CDATA[<x><y/></x>]]><?p <q> ?></a>", "<!-- <r> --><a/><!-- <s/><t/> -->"):
         base.append(Case(s, "", True, meta={"gen": "text-merge"}))
     base.append(Case(gens.ent_doc([("e", "y")], "<a>x&e;z</a>"), "", True, meta={"gen": "text-merge"}))
     rnd = random.Random(seed)
